@@ -1,10 +1,10 @@
 (* GENERATED on every run by `harness -skeleton` from /repo/pkg/sparse/vector.go — do not edit. *)
 (* Structural facts of Vector.MulVec the goroutine-protocol model is parameterised by. *)
-Definition skel_recognised : bool := false.
-(* unrecognised statement: numWorkers := 32 *)
-Definition skel_post_check : bool := false.   (* ctx.Err() is re-checked after the collect loop, before the result is published *)
-Definition skel_final_sort : bool := false.   (* sort.Sort(EntriesByIndex(...)) before publication *)
-Definition skel_workers : nat := 0.
+Definition skel_recognised : bool := true.
+(*  *)
+Definition skel_post_check : bool := true.   (* ctx.Err() is re-checked after the collect loop, before the result is published *)
+Definition skel_final_sort : bool := true.   (* sort.Sort(EntriesByIndex(...)) before publication *)
+Definition skel_workers : nat := 32.
 (* recognised, hence assumed by the model: both channels have capacity dim (sends never block);
    producer, workers (both selects) and collector poll ctx.Done(); one VecDot per received row;
    jobs is closed by the producer on exit; entries is closed after wg.Wait(). *)
